@@ -245,6 +245,9 @@ func (fc *FC) Recurrence(r *RF) (init, next *RF) {
 	if at == nil {
 		anchorFail("not a loop-carried value: %s", clip(r.String(), 200))
 	}
+	if mp, isMem := fc.X.memphiOf[at.ID]; isMem {
+		return mp.fc.memRecurrence(mp, at.Name)
+	}
 	p, ok := fc.X.phiOf[at.ID]
 	if !ok {
 		anchorFail("not a loop-carried value: %s", at.Name)
@@ -289,8 +292,21 @@ func sameLoop(a, b *Loop) bool {
 // several latches carry different values. Inner loops are stepped over
 // through their single exit.
 func (fc *FC) backEdgeValue(p *ssa.Phi) *RF {
-	s := fc.X.S
 	h := p.Block()
+	edgeVal := map[int]*RF{}
+	vals, preds := fc.Ctx.PhiLiveEdges(p)
+	for i, pr := range preds {
+		if fc.Ctx.Dominates(h, pr) {
+			edgeVal[pr.Index] = fc.Val(vals[i])
+		}
+	}
+	return fc.backEdgeGated(h, edgeVal)
+}
+
+// backEdgeGated: gated value carried around the loop headed by h, given the
+// value carried by each latch (keyed by block index).
+func (fc *FC) backEdgeGated(h *ssa.BasicBlock, edgeVal map[int]*RF) *RF {
+	s := fc.X.S
 	var loop *Loop
 	for _, l := range fc.Ctx.Loops() {
 		if l.Header == h {
@@ -299,13 +315,6 @@ func (fc *FC) backEdgeValue(p *ssa.Phi) *RF {
 	}
 	if loop == nil {
 		return nil
-	}
-	edgeVal := map[int]*RF{}
-	vals, preds := fc.Ctx.PhiLiveEdges(p)
-	for i, pr := range preds {
-		if loop.Body[pr.Index] {
-			edgeVal[pr.Index] = fc.Val(vals[i])
-		}
 	}
 	inner := map[int]*Loop{}
 	for _, l := range fc.Ctx.Loops() {
@@ -1076,9 +1085,6 @@ func solveZero(s *Sym, d *RF) map[AtomID]*RF {
 			continue
 		}
 		id := t.vars[0]
-		if len(s.atoms[id].Args) != 0 {
-			continue
-		}
 		// the atom must not occur elsewhere in d
 		occ := 0
 		for _, t2 := range d.N.terms {
@@ -1094,6 +1100,17 @@ func solveZero(s *Sym, d *RF) map[AtomID]*RF {
 		rest := d.Sub(s.atomRF(id).Mul(s.Const(t.coef)).Div(&RF{N: d.D, D: polyConst(bigOne()), S: s}))
 		// d = coef*x/D + rest = 0  =>  x = -rest*D/coef
 		val := rest.Neg().Mul(&RF{N: d.D, D: polyConst(bigOne()), S: s}).Div(s.Const(t.coef))
+		// the solved atom must not occur (at any depth) in its value, else the
+		// substitution does not eliminate it
+		self := false
+		for _, va := range val.Atoms(true) {
+			if va.ID == id {
+				self = true
+			}
+		}
+		if self {
+			continue
+		}
 		return map[AtomID]*RF{id: val}
 	}
 	return nil
@@ -1107,4 +1124,49 @@ func (b *B) EqUnder(rule, construct, where string, fc *FC, got *RF, env *SpecEnv
 		ok = b.EqRF(rule, construct, where, fc.Sub(got), want, "≡ "+spec)
 	})
 	return ok
+}
+
+// HoldsAt: cond is implied by the branch conditions known on entry to blk
+// (decided through the assumptions machinery: exact match, boolean
+// structure, order regions of comparisons).
+func (fc *FC) HoldsAt(blk *ssa.BasicBlock, cond *RF) bool {
+	var as []Assumption
+	as = append(as, fc.Assume...)
+	for _, f := range fc.Ctx.Facts(blk) {
+		as = append(as, Assumption{Cond: fc.Val(f.Cond), True: f.Val})
+	}
+	return fc.X.EvalCond(cond, as) == True
+}
+
+// memRecurrence: initial and back-edge value of a memory cell carried around
+// a loop (the cell analogue of a loop-header phi).
+func (fc *FC) memRecurrence(mp memphiInfo, name string) (init, next *RF) {
+	h := mp.b
+	edgeVal := map[int]*RF{}
+	same := true
+	for _, p := range fc.Ctx.LivePreds(h) {
+		v := fc.cellAtExit(mp.c, mp.t, p)
+		if fc.Ctx.Dominates(h, p) {
+			edgeVal[p.Index] = v
+			if next != nil && !next.Equal(v) {
+				same = false
+			}
+			next = v
+		} else {
+			if init != nil && !init.Equal(v) {
+				anchorFail("several different initial values for %s", name)
+			}
+			init = v
+		}
+	}
+	if !same {
+		next = fc.backEdgeGated(h, edgeVal)
+		if next == nil {
+			anchorFail("several different back-edge values for %s and no gating function", name)
+		}
+	}
+	if init == nil || next == nil {
+		anchorFail("%s is not carried by a loop", name)
+	}
+	return
 }
